@@ -106,6 +106,21 @@ pub struct Stats {
     pub normalized_fallbacks: u64,
 }
 
+/// bit layout of the positional (little-endian) view of symbolic scalars
+#[derive(Clone, Copy, Debug)]
+pub struct Layout {
+    /// constants occupy the low `const_bits` bits
+    pub const_bits: usize,
+    /// one digit of `digit_bits` bits per slot above that
+    pub digit_bits: usize,
+    pub max_slots: usize,
+    /// true: slots are never recycled (the canonical wire encoding is the positional one)
+    pub global_slots: bool,
+}
+pub const LAYOUT_WIDE: Layout = Layout { const_bits: 512, digit_bits: 8, max_slots: 192, global_slots: false };
+/// 32-byte scalars of the secp256k1 stubs: 2^(64+4k)
+pub const LAYOUT_K256: Layout = Layout { const_bits: 64, digit_bits: 4, max_slots: 48, global_slots: true };
+
 #[derive(Clone, Debug)]
 pub struct RunCfg {
     pub order: String,
@@ -117,6 +132,7 @@ pub struct RunCfg {
     pub branch_timeout_ms: u32,
     pub final_timeout_ms: u32,
     pub n_worlds: usize,
+    pub layout: Layout,
 }
 impl Default for RunCfg {
     fn default() -> Self {
@@ -129,6 +145,7 @@ impl Default for RunCfg {
             branch_timeout_ms: 3000,
             final_timeout_ms: 10000,
             n_worlds: 2,
+            layout: LAYOUT_WIDE,
         }
     }
 }
